@@ -309,7 +309,8 @@ def special_specs(rng):
         "Sphere": [{"d": 1.5}],
         "Tetrahedron": [{"verts": [[0, 0, 0], [1, 0, 0], [0, 1, 0], [0, 0, 1]]},
                         {"verts": [[0, 0, 0], [0, 1, 0], [1, 0, 0], [0, 0, 1]]}],          # both chiralities
-        "TriangularMesh": [{"points": [[0, 0, 0], [1, 0, 0], [0, 1, 0], [0, 0, 1], [1, 1, 1]]}],
+        "TriangularMesh": [{"points": [[x, y, z] for x in (0, 1) for y in (0, 1) for z in (0, 2)]},
+                           {"points": [[0, 0, 0], [1, 0, 0], [0, 1, 0], [0, 0, 1], [1, 1, 1]]}],
         "Triangle": [{"verts": [[0, 0, 0], [1, 0, 0], [0, 1, 0]]}, {"verts": [[0, 0, 0], [0, 1, 0], [1, 0, 0]]},
                      {"verts": [[0, 0, 1], [0, 2, 1], [0, 0, 3]]}],
     }
@@ -848,6 +849,43 @@ def check_mag_arrows(spec):
         head = pts[1:-1]
         if len(head) and ((head - pts[0]) @ want_dir).max() > L * (1 + 1e-9):
             return ("placed-at-pose", f"{backend}: the arrow head lies beyond the shaft")
+    return None
+
+
+def check_orientation_symbols(spec):
+    """Triangle / TriangularMesh with style.orientation.show: every facet's arrow sits on the facet's axis
+    (through its centroid) and points along the facet normal given by the vertex order (right-hand rule)"""
+    cls = spec["cls"]
+    if cls not in ("Triangle", "TriangularMesh"):
+        return None
+    ref = {**spec, "pos": [0.0, 0.0, 0.0], "rotvec": [0.0, 0.0, 0.0], "frames": None, "units": "m", "backend": "plotly"}
+    obj = build(ref)
+    if cls == "Triangle":
+        verts, faces = np.array(obj.vertices, dtype=float), np.array([[0, 1, 2]])
+    else:
+        verts, faces = np.array(obj.vertices, dtype=float), np.array(obj.faces)
+    tr, _ = to_metres(do_show([obj], {"backend": "plotly", "return_fig": True, "units_length": "m",
+                                      "style_orientation_show": True, "style_magnetization_show": False}))
+    meshes = [t for t in tr if t["type"] == "mesh3d"]
+    if len(meshes) != 2:
+        return ("placed-at-pose", f"{len(meshes)} meshes drawn, expected the body and its orientation symbols")
+    sym = max(meshes, key=lambda t: len(t["xyz"]))["xyz"]
+    if len(sym) % len(faces):
+        return ("placed-at-pose", "orientation symbols cannot be assigned to the facets")
+    k = len(sym) // len(faces)
+    for fi, f in enumerate(faces):
+        a, b, c = verts[f]
+        n = np.cross(b - a, c - b)
+        n = n / np.linalg.norm(n)
+        cen = (a + b + c) / 3
+        pts = sym[fi * k:(fi + 1) * k] - cen
+        ax = pts @ n
+        rad = np.linalg.norm(pts - np.outer(ax, n), axis=1)
+        ext = max(np.ptp(ax), 1e-300)
+        top, bottom = rad[ax > ax.max() - 1e-9 * ext], rad[ax < ax.min() + 1e-9 * ext]
+        if top.max() > 1e-6 * ext or bottom.max() < 1e-3 * ext:
+            return ("placed-at-pose", "a facet's orientation arrow does not point along the facet normal "
+                                      "(right-hand rule of its vertex order)")
     return None
 
 
@@ -1629,19 +1667,21 @@ def search(ctx, big):
                     report(ctx, spec, res)
     # 1c. fixed battery of exact special values (the degenerate branches of rotation-onto-axis code, sign
     # handling, chirality): every class, every run
-    flips = [[math.pi, 0, 0], [0, math.pi, 0], [0, 0, math.pi], [0.0, 0.0, 0.0]]
+    flips = [[math.pi, 0, 0], [0, math.pi, 0], [0, 0, math.pi]]
     for spec in special_specs(rng):
         for k, rv in enumerate(flips if spec.pop("_flips", False) else [None]):
             sp = copy.deepcopy(spec)
             if rv is not None:
                 sp["rotvec"] = rv
                 sp["pos"] = [0.5 * k, -1.0, 2.0]
-            for fn in ((check_single, check_mag_arrows) if sp["cls"] in MAGNETS else (check_single,)):
+            fns = [check_single] + ([check_mag_arrows] if sp["cls"] in MAGNETS else []) + (
+                [check_orientation_symbols] if sp["cls"] in ("Triangle", "TriangularMesh") and rv is None else [])
+            for fn in fns:
                 res = safe_check(fn, sp)
                 ctx.case(("special", fn.__name__, json.dumps(sp, sort_keys=True)), True)
                 ctx.bump("special:" + sp["cls"])
                 if res is not None:
-                    report(ctx, {**sp, "kind": "single" if fn is check_single else "mag-arrows"}, res, fn=fn)
+                    report(ctx, {**sp, "kind": KIND_OF[fn.__name__]}, res, fn=fn)
     # 1d. magnetization arrows at generic poses
     for t in range(ctx.n(14, 200) * mult):
         spec = gen_single(rng, MAGNETS[t % len(MAGNETS)])
@@ -1650,6 +1690,11 @@ def search(ctx, big):
         ctx.bump("mag-arrows:" + spec["cls"])
         if res is not None:
             report(ctx, {**spec, "kind": "mag-arrows"}, res, fn=check_mag_arrows)
+        if spec["cls"] in ("Triangle", "TriangularMesh"):
+            res = safe_check(check_orientation_symbols, spec)
+            ctx.case(("orientation", json.dumps(spec, sort_keys=True)), True)
+            if res is not None:
+                report(ctx, {**spec, "kind": "orientation"}, res, fn=check_orientation_symbols)
     # 2. scenes with collections and nesting
     for t in range(ctx.n(25, 700) * mult):
         spec = gen_scene(rng, ALL_CLASSES)
@@ -1705,7 +1750,8 @@ def search(ctx, big):
             ctx.impl_fail(f"{res[0]}/{spec['cls']}:animation", res[1], spec)
 
 
-CHECKS = {"single": check_single, "mag-arrows": check_mag_arrows, "scene": check_scene, "animation": check_animation, "mpl-sliced": check_mpl_sliced}
+KIND_OF = {"check_single": "single", "check_mag_arrows": "mag-arrows", "check_orientation_symbols": "orientation"}
+CHECKS = {"single": check_single, "mag-arrows": check_mag_arrows, "orientation": check_orientation_symbols, "scene": check_scene, "animation": check_animation, "mpl-sliced": check_mpl_sliced}
 
 
 def run(ctx):
